@@ -267,4 +267,27 @@ def illegalOk (s : State) (s' : State) (ts : TimeStep Obs) : Bool :=
   s'.board == s.board && ts.reward == [0] && s'.score == s.score &&
   (ts.stepType == (if (legalMask s.board).any id then StepType.mid else StepType.last))
 
+/-! ### C10: the reset state as a generated instance -/
+
+/-- number of tiles (non-empty cells) of a row / board -/
+def tileCountRow (r : List Nat) : Nat := (r.map (fun e => if e = 0 then 0 else 1)).sum
+def tileCount (b : Board) : Nat := (b.map tileCountRow).sum
+
+/-- generator certificate: what `reset` (`_generate_board` = empty board + `_add_random_cell`) advertises:
+a `board_size × board_size` board holding exactly one tile, a 2 or a 4 (exponent 1 or 2), score 0, step count 0,
+and the mask stored in the state is the legality of the four moves on that board -/
+def InstanceOK (n : Nat) (s : State) : Prop :=
+  Shaped s.board n ∧ tileCount s.board = 1 ∧ (boardSum s.board = 2 ∨ boardSum s.board = 4) ∧
+  s.score = 0 ∧ s.stepCount = 0 ∧ s.actionMask = legalMask s.board
+
+instance (n : Nat) (s : State) : Decidable (InstanceOK n s) := by unfold InstanceOK; infer_instance
+
+/-- the draw read off a board with one tile: flat index (row-major, `idx = row * n + col`) of the first non-empty
+cell and its exponent -/
+def drawOf (b : Board) : Draw :=
+  let n := b.length
+  match (List.range (n * n)).find? (fun k => get b (k / n) (k % n) != 0) with
+  | some k => { idx := k, val := get b (k / n) (k % n) }
+  | none => { idx := 0, val := 0 }
+
 end Game2048
